@@ -4,7 +4,7 @@
    LAYER B (whole designs, hierarchy, ports, drivers, naming) is translation validation: harness/props/c04.py. *)
 From Coq Require Import ZArith List Bool.
 From V.Model Require Import Bits Shape Ast Denote PyRTL PyEval Stmt Process RtlilSem.
-From V.Proofs Require Import BitsP ShapeP ExprP RtlilSemP.
+From V.Proofs Require Import BitsP ShapeP ExprP StmtP RtlilSemP.
 Import ListNotations.
 Open Scope Z_scope.
 
@@ -330,3 +330,51 @@ Proof.
     by (eapply under_step; [reflexivity|simpl; auto|apply under_refl]).
   repeat constructor; auto; try (eapply under_step; [reflexivity|simpl; auto|exact H01]).
 Qed.
+
+(* ---------------- _ir.NetlistEmitter.emit_assign: targets lowered to windowed conditional Assignments ---------------- *)
+(* every Assignment emit_assign produces under a condition is gated by that condition (all targets) *)
+Theorem C04_emit_assign_gated rho selnets i w lhs start rhs cond old : aval rho cond = false ->
+  wa_run rho i w (emit_assign selnets lhs start rhs cond) old = old.
+Proof. exact (emit_assign_false rho selnets i w lhs start rhs cond old). Qed.
+Print Assumptions C04_emit_assign_gated.
+
+(* for ALL targets built from signals, u/s reinterpretation, slices and choices (array elements of any widths: an
+   assignment starting lhs_start bits into a choice is shortened to what remains of each element — /repo 961f42e; the
+   earlier code rhs[:len(val)] wrote past a narrower element), nested in any way, all windows
+   [start, start + len(rhs)) inside the target, all valuations:
+   executing the produced Assignments changes exactly the bits the target addresses (Stmt.wr), bit k - start of rhs
+   going to the bit addressed by position k, selected by the choice's index value; everything else keeps its value *)
+Theorem C04_emit_assign_correct ss curr rho selnets lhs :
+  wf_lhs lhs = true -> sig_ok ss lhs -> sel_ok curr lhs -> seln_ok selnets rho curr lhs -> tclass lhs = true ->
+  forall start rhs cond i b old, aval rho cond = true -> 0 <= start -> start + nlen rhs <= ewidth lhs ->
+  0 <= b < width (ss i) ->
+  Z.testbit (wa_run rho i (width (ss i)) (emit_assign selnets lhs start rhs cond) old) b =
+  match wr curr lhs i b with
+  | Some k => if in_window start (nlen rhs) k then Z.testbit (nval rho rhs) (k - start) else Z.testbit old b
+  | None => Z.testbit old b
+  end.
+Proof. exact (emit_assign_bits ss curr rho selnets lhs). Qed.
+Print Assumptions C04_emit_assign_correct.
+
+(* ... = the statement-level target semantics of Model/Stmt.v (assign_rtl, the simulator's compiled assignment) *)
+Theorem C04_emit_assign_equals_assign_rtl ss curr rho selnets lhs :
+  wf_lhs lhs = true -> lin lhs = true -> sig_ok ss lhs -> sel_ok curr lhs -> seln_ok selnets rho curr lhs ->
+  tclass lhs = true ->
+  forall rhs arg nx i b, nlen rhs = ewidth lhs -> nval rho rhs = mask (ewidth lhs) arg -> 0 <= b < width (ss i) ->
+  Z.testbit (wa_run rho i (width (ss i)) (emit_assign selnets lhs 0 rhs ATrue) (nx i)) b =
+  Z.testbit (assign_rtl curr lhs arg nx i) b.
+Proof. exact (emit_assign_equals_assign_rtl ss curr rho selnets lhs). Qed.
+Print Assumptions C04_emit_assign_equals_assign_rtl.
+(* non-vacuity: Array([x[1:3], y.as_unsigned()])[sel] with sel = 1 selecting x[1:3]; and the former failing input
+   Array([a (4 bits), s[0:2]])[sel][1:3] <= 0b11 with the narrow element selected: only bit 1 of s is written *)
+Example C04_emit_assign_example :
+  let lhs := ESwitch (ESig 2 (Sh 1 false))
+               [(Some [[Some true]], ESlice (ESig 0 (Sh 4 false)) 1 3); (None, EOp1 OU (ESig 1 (Sh 2 false)))] in
+  let selnets := fun e => match e with ESig 2%nat _ => [NV 0%nat] | _ => [] end in
+  wf_lhs lhs = true /\ lin lhs = true /\ tclass lhs = true /\
+  wa_run (fun _ => true) 0 4 (emit_assign selnets lhs 0 [NC true; NC false] ATrue) 0 = 2 /\
+  wa_run (fun _ => true) 1 2 (emit_assign selnets lhs 0 [NC true; NC false] ATrue) 3 = 3 /\
+  let narrow := ESlice (ESwitch (ESig 2 (Sh 1 false))
+                          [(Some [[Some false]], ESig 0 (Sh 4 false)); (None, ESlice (ESig 1 (Sh 8 false)) 0 2)]) 1 3 in
+  tclass narrow = true /\ wa_run (fun _ => true) 1 8 (emit_assign selnets narrow 0 [NC true; NC true] ATrue) 0 = 2.
+Proof. vm_compute. repeat split; reflexivity. Qed.
